@@ -12,6 +12,10 @@ Correspondence streams (implementation vs the model executed in 192-bit arithmet
   corpus  : a deterministic corner corpus (same for every seed) evaluated first: small F, all chunk shapes, extreme
             magnitudes, mixed-regime batches, strided / expanded / aliased arguments, every init_state kind;
   integrate: the dict returned by `integrate()` block by block (Dr, Dv, Dp, Dt, a) against the model's `integrate`;
+  large   : batches of 2^14+1 / 2^16+1 items and streams of 2^k, 2^k+-1 frames: batch split bit for bit, single items,
+            frame split (chunk invariance), the model on the first and the last item;
+  steps   : every single rotation step rot_{k-1}^-1 rot_k against the exact Exp(w dt) at 64 eps, independent of k;
+  modeorder: first call of fresh sizes under inference_mode / no_grad, then autograd (with backward) and plain calls;
   reuse   : ONE object serves several calls with every per-call argument varied (B, F, rank, rotation, covariances,
             init_state), the caller re-using one set of buffers in place; each call = the call on a fresh object.
 Oracles on the real code (the property's own clauses)
@@ -60,6 +64,8 @@ META = {
 K_ALG = 64.0
 TINY = {"float64": 2.2250738585072014e-308, "float32": 1.1754943508222875e-38}
 STD_G = 9.810070037841797      # float32(9.81007)
+# (26) the sign of the gravity constant is a convention (z-up / z-down worlds), its size a choice of planet / units
+GRAVITIES = [0.0, STD_G, STD_G, STD_G, STD_G, -STD_G, -STD_G, -STD_G, 1.62, -3.71, 274.0, -274.0, 1e4, -1e4, 1e-6, -1e-6, 10.0, -10.0]
 DT_LADDER = [1e-4, 1e-3, 2e-3, 1e-2, 0.1, 0.5, 1.0]
 
 
@@ -80,6 +86,11 @@ def f32(x: float) -> float:
 
 def unit_quat(r: random.Random):
     c = r.random()
+    if c < 0.08:      # (20) exact ties |v| == |w| (quarter turn about an axis), both hemispheres
+        h = math.sqrt(0.5)
+        q = [0.0, 0.0, 0.0, h * r.choice([-1, 1])]
+        q[r.randrange(3)] = h * r.choice([-1, 1])
+        return q
     if c < 0.15:
         return [0.0, 0.0, 0.0, 1.0]
     if c < 0.3:
@@ -112,6 +123,10 @@ def gen_theta(r: random.Random, mode: str, eps: float) -> float:
         if mode == "pi_exact":
             ds = ds + [0.0, 0.0]
         return base * (1 + r.choice([-1, 1]) * r.choice(ds))
+    if mode == "quarter":   # (20) exact quarter / half / full turns per step (|v| = |w|, w = 0, v = 0 up to the last bit)
+        return r.choice([0.5, 1.0, 1.0, 1.5, 2.0]) * math.pi
+    if mode == "quarter_nopi":   # anisotropic gyro covariance: J C J^T depends on the sign Log picks at exactly a half turn
+        return r.choice([0.5, 0.5, 1.5, 2.0]) * math.pi
     if mode == "huge":      # many turns per step: valid input ("arbitrary gyro")
         return r.choice([20.0, 50.0, 100.0, r.uniform(10.0, 100.0)])
     return gen_theta(r, r.choice(["zero", "taylor", "small", "moderate", "moderate", "large"]), eps)   # mix
@@ -134,6 +149,7 @@ def gen_accmag(r: random.Random, mode: str) -> float:
 
 
 DT_EXTREME = [1e-5, 2.0, 10.0]
+DT_SIGNED = [-1.0, -0.01, -1e-4, 0.0, 0.0, 0.01, 0.5]
 
 
 def build_data(case) -> dict:
@@ -149,20 +165,32 @@ def build_data(case) -> dict:
         gm, amode = (items[b % len(items)] if items else (case["gyro_mode"], case["acc_mode"]))
         if gm == "pi" and case["cov_mode"] in ("default", "float") and not any(case["call_cov"]):
             gm = "pi_exact"     # isotropic gyro covariance: J C J^T does not depend on the sign Log picks at exactly pi
+        if gm == "quarter" and case["prop_cov"] and not (case["cov_mode"] in ("default", "float") and not any(case["call_cov"])):
+            gm = "quarter_nopi"
         for f in range(F):
             m = case["dt_mode"]
+            if m == "signed" and case["prop_cov"]:
+                m = "vary"                  # the covariance divides by dt: dt <= 0 only without covariance propagation
             if m == "const":
                 d = dt_const
             elif m == "ladder":
                 d = r.choice(DT_LADDER)
             elif m == "extreme":
                 d = r.choice(DT_EXTREME)
+            elif m == "signed":
+                d = r.choice(DT_SIGNED)
             else:
                 d = 10 ** r.uniform(-4, 0)
             dts.append(d)
             th = gen_theta(r, gm, eps)
             dirv = common.rand_dir(r, 3)
-            gy.append([th / d * x for x in dirv])
+            if gm in ("quarter", "quarter_nopi"):
+                d = r.choice([0.5, 0.25, 1.0]) if d > 0 else d      # power-of-two dt: gyro*dt is the exact float multiple of pi
+                dts[-1] = d
+                if r.random() < 0.6:
+                    dirv = [0.0, 0.0, 0.0]
+                    dirv[r.randrange(3)] = r.choice([-1.0, 1.0])
+            gy.append([(th / d if d != 0 else th) * x for x in dirv])
             am = gen_accmag(r, amode)
             dira = common.rand_dir(r, 3)
             ac.append([am * x for x in dira])
@@ -248,6 +276,34 @@ def item_data(case, D, b):
     return c, Db
 
 
+def user_imu_class():
+    """a user subclass of the shipped integrator (module-level name, so that it can be pickled / deep-copied)"""
+    g = globals()
+    if "UserIMU" not in g:
+        P = pp()
+
+        class UserIMU(P.module.IMUPreintegrator):
+            calls = {"integrate": 0, "predict": 0, "propagate_cov": 0}      # the user's overrides must be the ones that run
+
+            def integrate(self, *a, **k):
+                UserIMU.calls["integrate"] += 1
+                return super().integrate(*a, **k)
+
+            @classmethod
+            def predict(cls_, init_state, integrate):
+                UserIMU.calls["predict"] += 1
+                return super().predict(init_state, integrate)
+
+            @classmethod
+            def propagate_cov(cls_, *a, **k):
+                UserIMU.calls["propagate_cov"] += 1
+                return super().propagate_cov(*a, **k)
+        UserIMU.__qualname__ = "UserIMU"
+        UserIMU.__module__ = __name__
+        g["UserIMU"] = UserIMU
+    return g["UserIMU"]
+
+
 def make_module(case, D, keep=None):
     """the integrator of a case; `keep` collects the tensors handed to the constructor (the caller still owns them)"""
     P = pp()
@@ -276,10 +332,13 @@ def make_module(case, D, keep=None):
         kw.update(pos=D["p0"][:, None].clone(), rot=P.SO3(D["R0"][:, None].clone()), vel=D["v0"][:, None].clone())
     if keep is not None:     # pos / rot / vel are documented as values (the constructor clones them); the covariance tensors
         keep += [kw[k] for k in ("pos", "rot", "vel") if k in kw]      # are registered as given (observation, see notes)
+    cls = P.module.IMUPreintegrator
+    if case.get("subclass"):            # (21) a user class derived from the shipped one, overriding by delegation
+        cls = user_imu_class()
     if case.get("ctor_positional") and im != "default":
-        m = P.module.IMUPreintegrator(kw.pop("pos"), kw.pop("rot"), kw.pop("vel"), kw.pop("gravity"), **kw)
+        m = cls(kw.pop("pos"), kw.pop("rot"), kw.pop("vel"), kw.pop("gravity"), **kw)
     else:
-        m = P.module.IMUPreintegrator(**kw)
+        m = cls(**kw)
     return m.to(dtype)
 
 
@@ -567,7 +626,15 @@ def run_impl(case, D, chunks=None, rank=None, disturb=False, grad_mode=None, hoo
         args, kw, guards = call_args(case, D, ci if len(chunks) == len(case["chunks"]) else 0, s, s + n, rank)
         snap = [plain(x) for x in guards]
         before = module_attrs(m)
+        if case.get("subclass"):
+            cnt0 = dict(type(m).calls)
         o = do_call(m, case, args, kw, grad_mode)
+        if case.get("subclass"):
+            want = {"integrate": 1, "predict": 1, "propagate_cov": 1 if case["prop_cov"] else 0}
+            got = {k: type(m).calls[k] - cnt0[k] for k in want}
+            if got != want:
+                raise Misbehaviour(f"subclass: forward on a user subclass ran the user's overrides {got} times, expected {want} "
+                                   f"(dispatch by class identity instead of the object's own methods)")
         if not isinstance(o, dict) or any(k not in o for k in ("rot", "vel", "pos")):
             raise Misbehaviour("types: forward did not return a dict with rot / vel / pos")
         for a, b in zip(guards, snap):
@@ -769,6 +836,7 @@ class Scale:
             self.sv, self.sp = max(self.sv, float(v0.norm())), max(self.sp, float(p0.norm()))
 
     def step(self, dt, gyro, acc):
+        dt = abs(dt)
         am = float(acc.norm()) + self.g
         self.sp += self.sv * dt + 0.5 * am * dt * dt
         self.sv += am * dt
@@ -911,6 +979,8 @@ def oracle_chunk(ctx, case, D, impl_calls):
     rank = 3 if case["rank"] == 1 else case["rank"]
     try:
         one = run_impl(case, D, chunks=[F], rank=rank)[0]
+    except (Inconclusive, Misbehaviour):
+        raise
     except Exception as e:
         ctx.fail({**strip(case), "oracle": "chunk"}, f"raises: one-call run raised {type(e).__name__}: {str(e)[:160]}")
         return False
@@ -949,6 +1019,8 @@ def oracle_rank(ctx, case, D, impl_calls):
         return True
     try:
         ref = run_impl(case, D, rank=3)
+    except (Inconclusive, Misbehaviour):
+        raise
     except Exception as e:
         ctx.fail({**strip(case), "oracle": "rank"}, f"raises: rank-3 run raised {type(e).__name__}: {str(e)[:160]}")
         return False
@@ -1126,6 +1198,187 @@ def run_interleave(ctx: Ctx, group):
         ctx.fail({**case, "oracle": "raises"}, f"raises: interleaved objects raised {type(e).__name__}: {str(e)[:160]}")
 
 
+def oracle_default_dtype(ctx, case, D, impl_calls):
+    """(25) process-wide default dtype: constructing and calling under torch.set_default_dtype(the OTHER dtype) must give
+    the same values and the same metadata (dtype of every returned tensor, LieTensor type)"""
+    if not case.get("dtype_probe"):
+        return True
+    old = torch.get_default_dtype()
+    other = torch.float64 if case["dtype"] == "float32" else torch.float32
+    try:
+        torch.set_default_dtype(other)
+        res = run_impl(dict(case, layout="contig" if case.get("layout") != "alias" else "alias"), D)
+    except Inconclusive:
+        return True
+    except Misbehaviour:
+        raise
+    except Exception as e:
+        ctx.fail({**strip(case), "oracle": "default-dtype"},
+                 f"default-dtype: under torch.set_default_dtype({other}) the same call raises {type(e).__name__}: {str(e)[:140]}")
+        return False
+    finally:
+        torch.set_default_dtype(old)
+    for ci, (a, r) in enumerate(zip(impl_calls, res)):
+        if a["types"] != r["types"]:
+            ctx.fail({**strip(case), "oracle": "default-dtype"},
+                     f"default-dtype: under torch.set_default_dtype({other}) call {ci} returns {r['types']} instead of {a['types']}")
+            return False
+    diff = same_calls(impl_calls, res)
+    if diff is not None:
+        ctx.fail({**strip(case), "oracle": "default-dtype"},
+                 f"default-dtype: under torch.set_default_dtype({other}) the values differ in {diff}")
+        return False
+    return True
+
+
+def run_mode_order(ctx: Ctx):
+    """(23) caches poisoned by a grad mode: for frame counts that no earlier call of this process has used, the FIRST call
+    runs under inference_mode (resp. no_grad), then the same sizes are used by an autograd call (with backward) and by
+    a plain call; all must return the values of the plain call.  Runs before everything else."""
+    P = pp()
+    rng = random.Random(20260926_23)
+    for F, first in ((211, "inference"), (223, "no_grad"), (7, "inference"), (13, "no_grad")):
+        case = base_case(rng, "modeorder", [F], B=1, dtype="float64", gyro_mode="moderate", acc_mode="unit", gravity=-STD_G,
+                         layout="contig", prop_cov=(F < 100), reset=(F >= 100), known_rot=[False], call_cov=[False],
+                         positional=False, subclass=False)
+        ctx.note_case(("modeorder", F, first), True)
+        ctx.count("modeorder")
+        D = build_data(case)
+        try:
+            a = run_impl(case, D, grad_mode=first)
+            # autograd call of the same sizes, with a backward pass
+            m = make_module(case, D)
+            args, kw, _ = call_args(case, D, 0, 0, F)
+            args = [x.clone().requires_grad_() for x in args]
+            o = m(*args, **kw)
+            (raw_storage_grad(o["pos"]).sum() + raw_storage_grad(o["vel"]).sum() + raw_storage_grad(o["rot"]).sum()).backward()
+            if any(x.grad is None or not bool(torch.isfinite(x.grad).all()) for x in args):
+                raise Misbehaviour(f"modeorder: after a first call under {first} (F={F}) the autograd call returns no / non-finite gradients")
+            b = [record(o)]
+            c = run_impl(case, D)
+            for nm, r in (("autograd", b), (first, a)):
+                diff = same_calls(c, r)
+                if diff is not None:
+                    raise Misbehaviour(f"modeorder: F={F}: the {nm} call differs from the plain call in {diff} (first call of these sizes ran under {first})")
+        except Misbehaviour as e:
+            ctx.fail({**strip(case), "oracle": "modeorder", "first": first}, str(e))
+        except common.InfraError:
+            raise
+        except Exception as e:
+            ctx.fail({**strip(case), "oracle": "modeorder", "first": first},
+                     f"modeorder: after a first call under {first} with F={F} a later call of the same sizes raised {type(e).__name__}: {str(e)[:160]}")
+
+
+def raw_storage_grad(t):
+    return torch.Tensor.as_subclass(t, torch.Tensor)
+
+
+def run_steps(ctx: Ctx, cases):
+    """(24) every single step at round-off level: rot_k must be rot_{k-1} * Exp(w_k dt_k) with the EXACT increment (192-bit
+    `so3.Exp`) to 64 eps (1+theta), independent of the position k in the stream — a per-step defect cannot hide in the k*eps
+    drift allowance of the stream comparison"""
+    P = pp()
+    lines, metas = [], []
+    for case in cases:
+        if len(case["chunks"]) != 1 or case["rank"] != 3:
+            continue
+        D = build_data(case)
+        eps = common.EPS[case["dtype"]]
+        try:
+            impl = run_impl(case, D)
+        except Exception:
+            continue          # reported by the main stream
+        rot = impl[0]["rot"]
+        nst = D["R0"].shape[0]
+        for b in range(case["B"]):
+            R0 = D["R0"][b if nst > 1 else 0].double()
+            prev = torch.cat([R0[None], rot[b][:-1]], dim=0)
+            dq = (P.SO3(prev).Inv() * P.SO3(rot[b])).tensor()            # float64 arithmetic on the code's own outputs
+            for f in range(rot.shape[1]):
+                x = (D["gyro"][b, f].double() * D["dt"][b, f, 0].double())
+                lines.append("so3.Exp " + to_wire(eps) + " " + wl(x))
+                metas.append((case, b, f, dq[f], float(x.norm())))
+        ctx.count("steps.case")
+    reps = par_driver(ctx, lines)
+    bad = {}
+    for rep, (case, b, f, dq, th) in zip(reps, metas):
+        want = torch.tensor(parse_floats(rep), dtype=torch.float64)
+        eps = common.EPS[case["dtype"]]
+        # the input gyro*dt is rounded once in the dtype before Exp: 2 eps theta on top of the 64 eps of the composition
+        tol = K_ALG * eps * (1 + th)
+        e = float(qdist(dq, want))
+        if not e <= tol and id(case) not in bad:
+            bad[id(case)] = True
+            ctx.disagree("steps", strip(case), f"item {b} step {f}: |rot_{f-1}^-1 rot_{f} - Exp(w dt)| = {e:.3e} > {tol:.3e}")
+            ctx.fail({**strip(case), "oracle": "step", "item": b},
+                     f"step: item {b}: the rotation step {f} (theta = {th:.3e}) is off by {e:.3e} > {tol:.3e} = 64 eps (1+theta): "
+                     f"dR <- dR Exp(w dt) does not hold to round-off at this step")
+
+
+def run_large(ctx: Ctx):
+    """(19) large sizes: batches of 2^14+1 and 2^16+1 items, frame counts 2^k, 2^k +- 1 up to 4097; oracle without the model on
+    10^5 items: split consistency (batch split bit for bit, frame split = chunk invariance), single items first / last / random
+    against the call on that item alone, and the model on the LAST item / last frames"""
+    rng = random.Random(20260926_19)
+    specs = [(16385, [2], True), (65537, [1], False), (1, [1023], False), (1, [1025], True), (2, [513], True)]
+    if not ctx.quick:
+        specs += [(1, [4097], False), (1, [2047], False), (32769, [3], True), (3, [2049], False)]
+    left = model_left(ctx)
+    lines, metas = [], []
+    for B, parts, cov in specs:
+        case = base_case(rng, "large", parts, B=B, dtype=rng.choice(["float64", "float32"]), gyro_mode="moderate", acc_mode="unit",
+                         gravity=f32(rng.choice([STD_G, -STD_G])), layout="contig", prop_cov=cov, reset=not cov, known_rot=[B % 2 == 0],
+                         call_cov=[False], init_mode="per_item" if B > 1 else "shared", positional=False, subclass=False,
+                         dt_mode="vary", cov_mode="default")
+        F = parts[0]
+        ctx.note_case(("large", B, F, case["dtype"]), True)
+        ctx.count("large")
+        D = build_data(case)
+        try:
+            full = run_impl(case, D)
+            if not check_types(ctx, case, full):
+                continue
+            # batch split, bit for bit
+            if B > 1:
+                for a in (1, B // 2 + 1, B - 1):
+                    parts_out = []
+                    for lo, hi in ((0, a), (a, B)):
+                        c2 = dict(case, B=hi - lo)
+                        D2 = {k: (v[lo:hi] if isinstance(v, torch.Tensor) and v.shape[0] == B else v) for k, v in D.items()}
+                        parts_out.append(run_impl(c2, D2))
+                    for key in ("rot", "vel", "pos", "cov"):
+                        if full[0][key] is None:
+                            continue
+                        cat = torch.cat([parts_out[0][0][key], parts_out[1][0][key]], dim=0)
+                        if not torch.equal(cat, full[0][key]):
+                            i = int((cat != full[0][key]).flatten(1).any(dim=1).nonzero()[0])
+                            raise Misbehaviour(f"split: B={B}, F={F}: forward(x) differs from cat(forward(x[:{a}]), forward(x[{a}:])) in '{key}' at item {i}")
+                # single items
+                for i in (0, B - 1, rng.randrange(B)):
+                    cb, Db = item_data(case, D, i)
+                    one = run_impl(cb, Db)
+                    for key in ("rot", "vel", "pos", "cov"):
+                        if full[0][key] is not None and not torch.equal(one[0][key][0], full[0][key][i]):
+                            raise Misbehaviour(f"split: B={B}, F={F}: item {i} of the batch differs from the call on that item alone in '{key}'")
+            # frame split (chunk invariance on the real code) for the long streams
+            if F >= 64 and not case["reset"]:
+                oracle_chunk(ctx, dict(case, chunks=[F // 2 + 1, F - F // 2 - 1]), D,
+                             run_impl(dict(case, chunks=[F // 2 + 1, F - F // 2 - 1], known_rot=case["known_rot"] * 2,
+                                           call_cov=[False, False], explicit_init=[None, None]), dict(D, xi=[None, None])))
+            # the model (192 bits) on the first and the LAST item
+            if (F <= 1100 and not (cov and F > 300)) or not ctx.quick:
+                for b in sorted({0, B - 1}):
+                    lines.append(model_line(case, D, b, 0, left))
+                    metas.append((case, D, b, full))
+        except Misbehaviour as e:
+            ctx.fail({**strip(case), "oracle": str(e).split(":")[0]}, str(e))
+        except common.InfraError:
+            raise
+        except Exception as e:
+            ctx.fail({**strip(case), "oracle": "raises"}, f"raises: large case B={B}, F={F} raised {type(e).__name__}: {str(e)[:160]}")
+    compare_model(ctx, par_driver(ctx, lines), metas)
+
+
 def guarded(ctx, case, name, fn, *args):
     """an oracle must never crash the harness: whatever the implementation returned becomes a failure with the case"""
     try:
@@ -1218,6 +1471,7 @@ def evaluate(ctx: Ctx, cases, left=None) -> None:
             guarded(ctx, case, "items", oracle_items, D, impl)
             guarded(ctx, case, "grad", oracle_grad, D, impl)
             guarded(ctx, case, "copies", oracle_copies, D, impl)
+            guarded(ctx, case, "default-dtype", oracle_default_dtype, D, impl)
             for b in range(case["B"]):
                 pending.append(model_line(case, D, b, 0, left))
                 metas.append((case, D, b, impl))
@@ -1230,6 +1484,11 @@ def evaluate(ctx: Ctx, cases, left=None) -> None:
     for fu in futures:
         reps += fu.result()
     pool.shutdown()
+    compare_model(ctx, reps, metas)
+
+
+def compare_model(ctx: Ctx, reps, metas):
+    """implementation vs model replies; every disagreeing case is re-evaluated against the documented recursions"""
     suspects = []
     for rep, (case, D, b, impl) in zip(reps, metas):
         mc = split_reply(case, parse_floats(rep))
@@ -1301,7 +1560,7 @@ def run_integrate(ctx: Ctx, cases):
         F = sum(c1["chunks"])
         vals = torch.tensor(parse_floats(rep), dtype=torch.float64).reshape(F, 14)
         g = abs(c1["gravity"])
-        dt = D["dt"][b, :, 0].double()
+        dt = D["dt"][b, :, 0].double().abs()
         am = D["acc"][b].double().norm(dim=-1) + g
         th = (D["gyro"][b].double().norm(dim=-1) * dt).cummax(0)[0]
         k = torch.arange(F, dtype=torch.float64) + 2
@@ -1328,7 +1587,7 @@ def run_integrate(ctx: Ctx, cases):
 
 # ----------------------------------------------------------------------------- object reuse
 
-REUSE_KEYS = ("dtype", "gravity", "gravity_int", "ctor_positional", "reset", "prop_cov", "cov_mode", "init_mode", "ctor_seed",
+REUSE_KEYS = ("dtype", "gravity", "gravity_int", "ctor_positional", "subclass", "reset", "prop_cov", "cov_mode", "init_mode", "ctor_seed",
               "pos_mag", "vel_mag")
 
 
@@ -1400,7 +1659,7 @@ def run_reuse_history(ctx: Ctx, subs, record_case=True):
 
 # ----------------------------------------------------------------------------- case generation
 
-GYRO_MODES = ["mix", "mix", "mix", "moderate", "moderate", "moderate", "small", "small", "taylor", "taylor", "large", "large", "zero", "zero", "huge", "pi"]
+GYRO_MODES = ["mix", "mix", "mix", "moderate", "moderate", "moderate", "small", "small", "taylor", "taylor", "large", "large", "zero", "zero", "huge", "pi", "quarter"]
 ACC_MODES = ["mix", "mix", "mix", "unit", "unit", "grav", "grav", "big", "big", "zero", "zero", "huge", "tiny"]
 
 
@@ -1412,23 +1671,25 @@ def base_case(rng: random.Random, stream: str, chunks, B=None, rank=3, dtype=Non
         "dtype": dtype or rng.choice(["float64", "float64", "float32"]),
         "B": B if B is not None else rng.choice([1, 1, 2, 3, 4]),
         "rank": rank,
-        "gravity": rng.choice([0.0, STD_G, STD_G, STD_G]),
+        "gravity": f32(rng.choice(GRAVITIES)),
         "reset": False, "prop_cov": True,
         "chunks": list(chunks),
         "known_rot": [kr] * n, "call_cov": [False] * n, "explicit_init": [None] * n,
         "init_mode": rng.choice(["default", "shared", "shared", "per_item"]),
         "gyro_mode": rng.choice(GYRO_MODES), "acc_mode": rng.choice(ACC_MODES),
-        "dt_mode": rng.choice(["const", "const", "ladder", "ladder", "vary", "vary", "vary", "extreme"]),
+        "dt_mode": rng.choice(["const", "const", "const", "ladder", "ladder", "ladder", "vary", "vary", "vary", "vary", "extreme", "signed"]),
         "cov_mode": rng.choice(["default", "default", "float", "float", "vec", "vec", "gfloat_avec", "gvec_afloat", "gonly", "aonly"]),
         "positional": rng.random() < 0.25, "ctor_positional": rng.random() < 0.25, "gravity_int": False,
-        "init_flat": rng.random() < 0.5,
+        "init_flat": rng.random() < 0.5, "subclass": rng.random() < 0.15,
         "pos_mag": rng.choice([0.0, 1.0, 1e3]), "vel_mag": rng.choice([0.0, 1.0, 30.0]),
         "data_seed": rng.randrange(1 << 30),
         "layout": rng.choice(["contig", "contig", "contig", "strided", "expanded", "alias"]),
     }
     case.update(over)
-    if "gravity_int" not in over and case["gravity"] == 0.0 and rng.random() < 0.5:
-        case["gravity_int"] = True                      # zero gravity written as the python int 0
+    if "gravity_int" not in over and float(case["gravity"]).is_integer() and rng.random() < 0.5:
+        case["gravity_int"] = True                      # 0, 10, -10, 274 … written as python ints
+    if case["dt_mode"] == "signed":                     # (26) dt < 0 / dt = 0 frames: no covariance (it divides by dt)
+        case["prop_cov"], case["reset"] = False, True
     if case["layout"] == "alias" and case["acc_mode"] in ("zero", "big", "huge") and "gyro_mode" not in over:
         case["gyro_mode"] = "moderate"       # acc IS gyro in this layout: keep it a sensible signal
     if case["rank"] < 3:
@@ -1564,6 +1825,29 @@ def corner_corpus():
         add([6], B=2, gyro_mode="pi", acc_mode="unit", gravity=STD_G, cov_mode="default", dtype=dtp, known_rot=[False])
         add([3, 3], B=1, gyro_mode="pi", acc_mode="grav", gravity=STD_G, cov_mode="vec", dtype=dtp, known_rot=[True])
     # (12), (14) probes on carried histories
+    # ---- round-4 classes
+    # (26) sign / size of the gravity constant (z-down worlds, other planets, other units), int spelling; dt < 0 and dt = 0
+    for k, gval in enumerate((-STD_G, -STD_G, f32(-1.62), f32(274.0), f32(-274.0), 1e4, -1e4, f32(1e-6), f32(-1e-6), -10.0)):
+        add([3] if k % 2 else [2, 2], B=1 + k % 2, gravity=gval, gravity_int=(gval == -10.0), known_rot=[k % 3 == 0],
+            gyro_mode="moderate", acc_mode="grav" if abs(gval) < 20 else "unit", init_mode="shared", pos_mag=0.0, vel_mag=0.0,
+            dtype="float64" if k % 3 else "float32")
+    add([4], B=2, gravity=-STD_G, item_modes=[("zero", "zero"), ("moderate", "grav")], gyro_mode="mix", acc_mode="mix",
+        known_rot=[False], itemwise=True)
+    for kr in (False, True):
+        add([5], B=1, dt_mode="signed", gravity=-STD_G if kr else STD_G, known_rot=[kr], gyro_mode="moderate", acc_mode="unit")
+        add([2, 3], B=2, dt_mode="signed", gravity=STD_G, known_rot=[kr], gyro_mode="large", acc_mode="grav")
+    # (20) exact coincidences: quarter / half / full turns per step, tie quaternions as known rotation, equal dt,
+    #      acceleration exactly equal to the rotated gravity (stationary sensor)
+    for dtp in ("float64", "float32"):
+        add([6], B=2, gyro_mode="quarter", acc_mode="unit", dt_mode="const", cov_mode="default", dtype=dtp, known_rot=[False], gravity=STD_G)
+        add([2, 2], B=1, gyro_mode="quarter", acc_mode="grav", dt_mode="const", cov_mode="vec", dtype=dtp, known_rot=[True], gravity=-STD_G)
+    # (21) user subclasses of the integrator and of LieTensor
+    add([2, 3], B=2, subclass=True, known_rot=[True], gyro_mode="moderate", acc_mode="unit", gravity=STD_G)
+    add([4], B=1, subclass=True, known_rot=[False], gyro_mode="moderate", acc_mode="unit", gravity=-STD_G, explicit_init=["cov+rij"])
+    # (25) process-wide default dtype
+    for c in cs[2::7]:
+        if sum(c["chunks"]) <= 40:
+            c["dtype_probe"] = True
     multi = [c for c in cs if len(c["chunks"]) >= 2 and not c.get("fail_at")]
     for c in multi[::3]:
         c["copy_probe"] = True
@@ -1652,6 +1936,8 @@ def gen_cases(ctx: Ctx):
             c["copy_at"] = rng.randint(1, len(c["chunks"]) - 1)
         if sum(c["chunks"]) <= 24 and rng.random() < 0.1:
             c["grad_probe"] = True
+        if sum(c["chunks"]) <= 40 and rng.random() < 0.1:
+            c["dtype_probe"] = True
     return cases
 
 
@@ -1699,7 +1985,9 @@ def run_shapes(ctx: Ctx):
 def run(ctx: Ctx):
     torch.set_num_threads(2)
     rng = ctx.rng
+    run_mode_order(ctx)          # (23) must see sizes that are fresh in this process: first of all
     run_shapes(ctx)
+    run_large(ctx)               # (19)
     # deterministic corner corpus first (same for every seed), then the seeded random cases
     corpus = corner_corpus()
     reuse = corpus_reuse() + [reuse_history(rng, rng.randint(3, 6), rng.choice(["reset", "reset", "fullinit"]))
@@ -1726,6 +2014,7 @@ def run(ctx: Ctx):
               and c.get("layout", "contig") != "alias"]
     pick = [c for c in single if c["stream"] == "corpus"] + [c for c in single if c["stream"] != "corpus" and sum(c["chunks"]) <= 64][:ctx.pick(40, 200)]
     run_integrate(ctx, pick)
+    run_steps(ctx, [c for c in pick if sum(c["chunks"]) <= 64][:ctx.pick(60, 300)])      # (24)
 
 
 def search(ctx: Ctx):
@@ -1776,6 +2065,10 @@ def replay(ctx: Ctx, case) -> bool:
         run_reuse_history(ctx, c["subs"])
     elif c.get("kind") == "interleave":
         run_interleave(ctx, c["subs"])
+    elif c.get("stream") == "large":
+        run_large(ctx)
+    elif c.get("stream") == "modeorder":
+        run_mode_order(ctx)
     elif c.get("kind") == "integrate":
         c["kind"] = "hist"
         run_integrate(ctx, [c])
